@@ -42,7 +42,7 @@ fuzz_target!(|data: &[u8]| {
                 }
             }
         }
-        if bits.len() > 600_000 {
+        if bits.len() > 150_000 {
             break;
         }
     }
